@@ -41,7 +41,7 @@ def tokenize(text):
         else:
             k = "other"
         tk = {"k": k, "id": t.upper() if k == "word" else (" " if k == "blank" else ("\n" if k == "eol" else t)),
-              "text": t, "join": False, "split": False, "pad": False, "tight": False, "case": "asis", "width": "one", "extra": "none", "line": line}
+              "text": t, "join": False, "split": False, "pad": False, "tight": False, "drop": False, "case": "asis", "width": "one", "extra": "none", "line": line}
         toks.append(tk)
         if k == "eol":
             line += 1
@@ -81,6 +81,18 @@ def tokenize(text):
                 tk["join"] = True
                 # a colon WITHOUT a blank before it, after a line that is one bare word, would turn that word into a label
                 tk["tight"] = len(re.findall(r'\S+', lines[i])) > 1
+    # a blank next to a parenthesis, a comma, a semicolon or an operator sign separates nothing that would otherwise run
+    # together: it may be left out (FOR I = 1 TO (7)STEP 3, PRINT(1), A=1)
+    for i, tk in enumerate(toks):
+        if tk["k"] == "blank" and 0 < i < len(toks) - 1:
+            a, b_ = toks[i - 1], toks[i + 1]
+            signs = "(),;=+-*/<>"
+            # not after a name that would become a call / an array reference: NAME (..) and NAME(..) are different things
+            if a["k"] == "word" and b_["text"] in ("+", "-"):
+                continue        # a sign directly after a keyword (TO-2, STEP-2): not required of the parser by C09
+            if (a["k"] == "other" and a["text"] in signs and a["text"] != ")") or (b_["k"] == "other" and b_["text"] in signs and b_["text"] != "(") \
+                    or (a["text"] == ")" and b_["k"] == "word" and b_["text"].upper() != "AS") or (b_["text"] == "(" and a["k"] == "word" and a["text"].upper() in KEYWORDS):
+                tk["drop"] = True
     # a colon that separates two statements may have blanks around it; the colon of a label may not (it belongs to the name)
     start = 0
     for i in range(len(toks) + 1):
@@ -118,6 +130,8 @@ def materialise(toks, sites, eolkind, rng):
                 t = t + " "
             elif mv == "tab":
                 t = "\t"
+            elif mv == "none":
+                t = ""
         elif k == "eol":
             if mv == "join":
                 t = " : "
@@ -236,7 +250,7 @@ def run(tier, replay):
     spath = os.path.join(d, "seeds.ndjson")
     with open(spath, "w") as f:
         for s in sd:
-            f.write(dumps({"id": s["id"], "toks": [{k: tk[k] for k in ("k", "id", "join", "split", "pad", "tight", "case", "width", "extra")} for tk in s["toks"]]}) + "\n")
+            f.write(dumps({"id": s["id"], "toks": [{k: tk[k] for k in ("k", "id", "join", "split", "pad", "tight", "drop", "case", "width", "extra")} for tk in s["toks"]]}) + "\n")
     res = run_tlc("Layout.tla", "Layout_%s.cfg" % tier, os.path.join(d, "tlc"), env={"SEEDS": spath}, timeout=3000)
     if res.timed_out:
         raise ToolError("TLC timed out on Layout.tla")
